@@ -14,6 +14,7 @@ import (
 	"errors"
 	"fmt"
 	"io"
+	"math"
 	"net"
 	"net/http"
 	"net/netip"
@@ -593,6 +594,11 @@ type vgen struct {
 	// and the path template around it, none of which a Go type shows: text and array lengths stay in the core
 	// domain there (the hand-written world covers delimiters per style); numbers and instants do not.
 	params bool
+	// small: the call's numbers are 1..5 and its texts 6-10 characters, which the usual bounds in documents
+	// admit (half of the calls: those with an even value seed); otherwise numbers are -100..100, texts 1-8.
+	small bool
+	// op: the operation's name, the hint for values that have no member name of their own
+	op string
 }
 
 const alnum = "abcdefghijklmnopqrstuvwxyz0123456789"
@@ -604,11 +610,29 @@ func (g *vgen) text() string {
 		return edgeTexts[g.r.intn(len(edgeTexts))]
 	}
 	n := 1 + g.r.intn(8)
+	if g.small {
+		n = 6 + g.r.intn(5)
+	}
 	b := make([]byte, n)
 	for i := range b {
 		b[i] = alnum[g.r.intn(len(alnum))]
 	}
 	return string(b)
+}
+
+// hinted: texts whose member name says which syntax they must have.
+func (g *vgen) hinted(hint string) (string, bool) {
+	lh := strings.ToLower(hint)
+	if i := strings.LastIndex(lh, "."); i >= 0 && (strings.Contains(lh[i:], "email") || strings.Contains(lh[i:], "hostname")) {
+		lh = lh[i:] // the innermost name decides
+	}
+	switch {
+	case strings.Contains(lh, "email"):
+		return "u" + strconv.Itoa(g.r.intn(1000)) + "@h" + strconv.Itoa(g.r.intn(100)) + ".test", true
+	case strings.Contains(lh, "hostname"):
+		return "h" + strconv.Itoa(g.r.intn(1000)) + ".sim.test", true
+	}
+	return "", false
 }
 
 func (g *vgen) intIn(bits int, signed bool) int64 {
@@ -618,6 +642,9 @@ func (g *vgen) intIn(bits int, signed bool) int64 {
 			return []int64{lim, -lim - 1, 0, -1, 1}[g.r.intn(5)]
 		}
 		return 0 // unsigned extremes are made by uintIn
+	}
+	if g.small {
+		return int64(1 + g.r.intn(5))
 	}
 	v := int64(g.r.intn(201)) - 100
 	if !signed && v < 0 {
@@ -637,7 +664,12 @@ func (g *vgen) value(t reflect.Type, depth int, hint string) reflect.Value {
 		tm := time.Date(1971+g.r.intn(80), time.Month(1+g.r.intn(12)), 1+g.r.intn(28), g.r.intn(24), g.r.intn(60), g.r.intn(60), 0, time.UTC)
 		if g.edge && g.r.intn(3) == 0 {
 			// far instants: every format carries them (years 1 to 9999)
-			tm = time.Date([]int{1, 1000, 1677, 1900, 1969, 2262, 2300, 9999}[g.r.intn(8)], time.Month(1+g.r.intn(12)), 1+g.r.intn(28), g.r.intn(24), g.r.intn(60), g.r.intn(60), 0, time.UTC)
+			years := []int{1, 1000, 1677, 1900, 1969, 2262, 2300, 9999}
+			if strings.Contains(strings.ToLower(hint), "nano") {
+				// a count of nanoseconds in 64 bits reaches from 1678 to 2261: that is the format's range
+				years = []int{1700, 1900, 1969, 2200, 2261, 1678}
+			}
+			tm = time.Date(years[g.r.intn(len(years))], time.Month(1+g.r.intn(12)), 1+g.r.intn(28), g.r.intn(24), g.r.intn(60), g.r.intn(60), 0, time.UTC)
 		}
 		v.Set(reflect.ValueOf(tm))
 		return v
@@ -650,9 +682,9 @@ func (g *vgen) value(t reflect.Type, depth int, hint string) reflect.Value {
 	case t == addrType:
 		six := g.r.intn(2) == 0
 		lh := strings.ToLower(hint)
-		if strings.Contains(lh, "v6") {
-			six = true
-		} else if strings.Contains(lh, "v4") {
+		if i4, i6 := strings.LastIndex(lh, "v4"), strings.LastIndex(lh, "v6"); i6 > i4 {
+			six = true // the innermost name decides
+		} else if i4 > i6 {
 			six = false
 		}
 		if six {
@@ -757,7 +789,7 @@ func (g *vgen) value(t reflect.Type, depth int, hint string) reflect.Value {
 			if !f.IsExported() {
 				continue
 			}
-			v.Field(i).Set(g.value(f.Type, depth+1, f.Name))
+			v.Field(i).Set(g.value(f.Type, depth+1, hint+"."+f.Name))
 		}
 		return v
 	case reflect.Slice:
@@ -803,6 +835,10 @@ func (g *vgen) value(t reflect.Type, depth int, hint string) reflect.Value {
 				return all.Index(g.r.intn(all.Len()))
 			}
 		}
+		if h, ok := g.hinted(hint); ok && !(g.edge && !g.params) {
+			v.SetString(h)
+			return v
+		}
 		v.SetString(g.text())
 		return v
 	case reflect.Bool:
@@ -825,11 +861,18 @@ func (g *vgen) value(t reflect.Type, depth int, hint string) reflect.Value {
 			}
 			return v
 		}
-		v.SetUint(uint64(g.r.intn(201)))
+		v.SetUint(uint64(g.intIn(t.Bits(), false)))
 		return v
 	case reflect.Float32:
 		if g.edge && g.r.intn(3) == 0 {
 			v.SetFloat([]float64{3.4028234663852886e38, -3.4028234663852886e38, 1.401298464324817e-45, 0, 1e-7, 16777217}[g.r.intn(6)])
+			if f := math.Float32frombits(uint32(g.r.next())); g.r.intn(2) == 0 && !math.IsNaN(float64(f)) && !math.IsInf(float64(f), 0) {
+				v.SetFloat(float64(f)) // any finite number of the width
+			}
+			return v
+		}
+		if g.small {
+			v.SetFloat(float64(1+g.r.intn(4)) + 0.5)
 			return v
 		}
 		v.SetFloat(float64(g.r.intn(8001)-4000)/8 + 0.0625)
@@ -837,6 +880,13 @@ func (g *vgen) value(t reflect.Type, depth int, hint string) reflect.Value {
 	case reflect.Float64:
 		if g.edge && g.r.intn(3) == 0 {
 			v.SetFloat([]float64{1.7976931348623157e308, -1.7976931348623157e308, 5e-324, 0, 1e-7, 1e21, 9007199254740993, 0.1}[g.r.intn(8)])
+			if f := math.Float64frombits(g.r.next()); g.r.intn(2) == 0 && !math.IsNaN(f) && !math.IsInf(f, 0) {
+				v.SetFloat(f)
+			}
+			return v
+		}
+		if g.small {
+			v.SetFloat(float64(1+g.r.intn(4)) + 0.5)
 			return v
 		}
 		v.SetFloat(float64(g.r.intn(2000001)-1000000)/64 + 1.0/128)
@@ -857,10 +907,10 @@ func (g *vgen) textCore() string {
 func (g *vgen) top(t reflect.Type) reflect.Value {
 	if t.Kind() == reflect.Pointer {
 		p := reflect.New(t.Elem())
-		p.Elem().Set(g.value(t.Elem(), 1, ""))
+		p.Elem().Set(g.value(t.Elem(), 1, g.op))
 		return p
 	}
-	return g.value(t, 0, "")
+	return g.value(t, 0, g.op)
 }
 
 // response makes what the handler returns: a variant of the result sum (never an informational one), with
@@ -966,24 +1016,12 @@ var defaultsSeen = map[string]string{} // package + type.member -> default obser
 
 const respSalt = 0x7e57ab1e
 
-func sideIndex(si *srvInfo) int {
-	for i, s := range si.Call.Rec.sides {
-		if s == si.Side {
-			return i
-		}
-	}
-	return -1
-}
-
 func typedSide(ctx context.Context) (*srvInfo, *TypedSide) {
 	si := srvFrom(ctx)
 	if si == nil || si.Call == nil || si.Call.Rec == nil || si.Call.Rec.T == nil {
 		return nil, nil
 	}
-	i := sideIndex(si)
-	if i < 0 {
-		return nil, nil
-	}
+	i := si.Idx
 	tr := si.Call.Rec.T
 	if tr.sides[i] == nil {
 		tr.sides[i] = &TypedSide{}
@@ -1013,7 +1051,7 @@ func typedHandler(impls map[string][]reflect.Type) func(ctx context.Context, op 
 			return nil
 		}
 		c := si.Call.Rec.Call
-		g := &vgen{r: vrng{s: c.V ^ respSalt}, edge: c.Edge, impls: impls}
+		g := &vgen{r: vrng{s: c.V ^ respSalt}, edge: c.Edge, impls: impls, small: c.V&1 == 0, op: op}
 		rv := reflect.ValueOf(res).Elem()
 		v, ok := g.response(rv.Type())
 		if !ok {
@@ -1100,7 +1138,7 @@ func doTyped(ctx context.Context, cl any, impls map[string][]reflect.Type, rec *
 		return
 	}
 	mt := m.Type()
-	g := &vgen{r: vrng{s: c.V}, edge: c.Edge, impls: impls}
+	g := &vgen{r: vrng{s: c.V}, edge: c.Edge, impls: impls, small: c.V&1 == 0, op: c.TOp}
 	in := []reflect.Value{reflect.ValueOf(ctx)}
 	n := mt.NumIn()
 	if mt.IsVariadic() {
